@@ -52,11 +52,15 @@ func verifDo(req *http.Request) (*http.Response, error) {
 			if i < n {
 				tag = ins[i].Query
 			}
-			switch verifChoice("elem"+verifItoa(i), 5) {
+			switch verifChoice("elem"+verifItoa(i), 6) {
 			case 0:
 				elems[i] = map[string]interface{}{"data": map[string]interface{}{"tag": tag}}
+			case 5:
+				// a legal healthy answer: data next to an empty errors list
+				elems[i] = map[string]interface{}{"data": map[string]interface{}{"tag": tag}, "errors": []interface{}{}}
 			case 1:
 				elems[i] = nil
+				v9Signal = true // neither data nor errors
 			case 2:
 				elems[i] = map[string]interface{}{"data": nil, "errors": []interface{}{map[string]interface{}{"message": "boom"}}}
 				v9Signal = true
@@ -106,13 +110,12 @@ func VerifDownstreamAnswers() {
 	}
 	if err != nil {
 		verifAssert(res == nil, "no partial results next to an error")
+		verifAssert(v9Signal, "a healthy, well-formed answer is not reported as an error")
 		return
 	}
 	verifAssert(len(res) == n, "one result per request")
 	for i := 0; i < n; i++ {
-		if res[i] != nil {
-			verifAssert(res[i]["tag"] == v9Tags[i], "a result that is present answers its own request")
-		}
+		verifAssert(res[i] != nil && res[i]["tag"] == v9Tags[i], "every accepted result is present and answers its own request")
 	}
 	verifReach("answer accepted")
 }
